@@ -269,7 +269,7 @@ def rpc_jobs(ctx):
     two = tla_set(["a", "b"])
     plain = tla_set(["plain"])
     J = []
-    T = 600 if quick else 3000
+    T = 1500 if quick else 3600
     # ---- every interleaving of the critical sections
     J.append(Job("full", SPEC_RPC, "rpc_full_nowatch", rpc_consts(Keys=two, CacheSize=1, Burst=1, Atomic="FALSE"),
                  MC + ["NEXT MCNextNoWatch", "INVARIANTS " + RPC_SAFETY, "PROPERTIES KeysIndependent TokensOnlyRefillByTime"],
@@ -284,10 +284,10 @@ def rpc_jobs(ctx):
                      MC + ["NEXT MCNext", "INVARIANTS " + RPC_SAFETY + " WindowBound",
                            "PROPERTIES KeysIndependent TokensOnlyRefillByTime"], workers=6, timeout=T))
         J.append(Job("full", SPEC_RPC, "rpc_full_3keys",
-                     rpc_consts(Reqs=tla_set([1, 2]), Kinds=plain, MaxConns=1, Atomic="FALSE", WatchTime=2, WatchEvict=1),
+                     rpc_consts(Reqs=tla_set([1, 2]), Kinds=plain, MaxConns=1, Burst=1, Atomic="FALSE", WatchTime=2, WatchEvict=1),
                      MC + ["NEXT MCNext", "INVARIANTS " + RPC_SAFETY + " WindowBound"], workers=6, timeout=T))
-    # ---- liveness (thorough tier: the JVM start-up of every extra run is what the quick tier pays for)
-    if not quick:
+    # ---- liveness
+    if True:
       J.append(Job("live", SPEC_RPC, "rpc_live",
                  rpc_consts(Keys=two, Reqs=tla_set([1, 2]), CacheSize=1, Burst=1, MaxConns=1, Atomic="FALSE"),
                  ["SPECIFICATION MCFairSpecNoWatch", "VIEW View", "PROPERTIES SlotsComeBack PassageEnds BucketsRefill",
@@ -396,7 +396,7 @@ BIG = dict(Need1=4, ProtoLim1=9, ProtoPeerLim1=9, SvcLim=9, SvcPeerLim=9, SvcMem
 
 def sh_jobs(ctx):
     quick = ctx.quick
-    T = 600 if quick else 3000
+    T = 1500 if quick else 3600
     J = []
     one = tla_set([1])
     # ---- every interleaving
@@ -414,7 +414,7 @@ def sh_jobs(ctx):
                      MC + ["NEXT MCNext", "INVARIANTS " + SH_SAFETY + " WindowBound",
                            "PROPERTIES AddressesIndependent RefusedStreamEnds"], workers=6, timeout=T))
     # ---- liveness
-    if not quick:
+    if True:
       J.append(Job("live", SPEC_SH, "sh_live", sh_consts(Atomic="FALSE", Streams=tla_set([1, 2]), Protos=one, SvcLim=1, SvcMem=4),
                  ["SPECIFICATION MCFairSpecNoWatch", "VIEW View", "PROPERTIES StreamsEnd ServiceSlotsComeBack", "CHECK_DEADLOCK FALSE"],
                  workers=2, timeout=T, count=False))
@@ -425,6 +425,9 @@ def sh_jobs(ctx):
     # ---- serialised state graphs
     replay = [("sh_replay_scope", sh_consts(RateOn="FALSE", Hows=tla_set(["served", "panicked"]) if quick else tla_set(["served", "failed", "panicked"]))),
               ("sh_replay_rate", sh_consts(Peers=tla_set([1, 2, 3]), IP1='"x"', IP2='"x"', IP3='"lo"', Protos=one, Streams=tla_set([1, 2]), **BIG))]
+    # service limit and rate limit together (which of the two a refused stream has paid for)
+    replay.append(("sh_replay_mix", sh_consts(IP1='"x"', IP2='"x"', Protos=one, Streams=tla_set([1, 2, 3]),
+                                              **dict(BIG, SvcLim=1, SvcPeerLim=1))))
     if not quick:
         replay.append(("sh_replay_all", sh_consts(Peers=tla_set([1, 2, 3]), IP1='"x"', IP2='"x"', IP3='"lo"')))
         replay.append(("sh_replay_none", sh_consts(Peers=tla_set([1, 2, 3]), IP1='"x"', IP2='"y"', IP3='"none"', Protos=one, Burst=1,
@@ -499,6 +502,9 @@ def run(ctx):
     summ = rep.get("summary") or {}
     ctx.cover(evaluations=int(cnt.get("rpc_steps", 0)) + int(cnt.get("shrex_steps", 0)),
               traces_validated_against_impl=int(cnt.get("rpc_paths_conform", 0)) + int(cnt.get("shrex_paths_conform", 0)))
+    ctx.cover(distinct_nontrivial=int(ctx.cov.get("rpc_graph_edges", 0)) + int(ctx.cov.get("shrex_graph_edges", 0)),
+              rule="one evaluation = one stimulus applied to the real middleware / stream handler and compared with the model; "
+                   "distinct = transitions (stimulus-level edges) of the serialised state graphs, each replayed at least once")
     if not summ:
         return
     need_rpc = {"rpc_steps": 1000, "rpc_admitted": 100, "rpc_429": 50, "rpc_503": 50, "rpc_finish_returned": 50,
